@@ -31,7 +31,7 @@ RULE = ('random pin-bundle problems (2-8 rings, 1-3 ducts, flowing/stagnant '
         'temperature rose by > 1 K; distinct by (rings, ducts, bypass, corr, '
         'gap, options)')
 DECIDING = ['I1_interior_balance', 'I0_probe_exchange_sums_to_zero']
-CASE_TIMEOUT = {'quick': 150, 'thorough': 600}
+CASE_TIMEOUT = {'quick': 150, 'thorough': 900}
 BUDGET = {'quick': 600, 'thorough': 3000}
 ASSUMPTIONS = ['numpy float64 arithmetic',
                'geometry attributes published by RoddedRegion (checked '
@@ -66,6 +66,10 @@ def cases(tier, seed):
             continue
         out.append({'name': 'repo-' + nm[6:-4], 'kind': 'repo', 'input': nm,
                     'seed': [seed, 9, n]})
+    if tier == 'thorough':
+        # the repository's own test-suite as one more workload
+        out.insert(0, {'name': 'repo-tests', 'kind': 'repotests',
+                       'seed': [seed, 0, 0]})
     return out
 
 
@@ -425,23 +429,11 @@ def run_refine(case, res):
     return feats
 
 
-def run_case(case):
-    res = Result(case)
-    if case['kind'] == 'refine':
-        try:
-            feats = run_refine(case, res)
-            res.sample({'case': case, 'features': feats})
-        except drive.Rejected as e:
-            res.status('rejected', str(e))
-        return res
-    if case['kind'] == 'repo':
-        P, feats = None, {'repo_input': case['input']}
-        key = {'repo_input': case['input']}
-    else:
-        P, feats = build_problem(case)
-        key = {k: feats.get(k) for k in ('nr', 'n_duct', 'gap', 'tdep')}
-    rng = np.random.default_rng(case['seed'] + [99])
-    state = {'steps': 0}
+def step_monitors(res, key, state=None):
+    """The per-step and region-change monitors of this check as callbacks
+    for a StepMonitor (used on generated problems, on the repository's
+    example inputs and on the repository's own test-suite as a workload)."""
+    state = state if state is not None else {'steps': 0}
 
     def on_step(rec):
         state['steps'] += 1
@@ -474,6 +466,40 @@ def run_case(case):
 
     def on_rc(tok):
         check_region_change(res, tok, key)
+
+    return on_step, on_rc
+
+
+def run_case(case):
+    res = Result(case)
+    if case['kind'] == 'repotests':
+        got, tail = drive.run_repo_tests(['c01'])
+        if 'c01' not in got:
+            res.status('error', 'test-suite run left no monitor output: '
+                       + tail)
+            return res
+        res.d.update({k: got['c01'][k] for k in ('viol', 'counts', 'stats')})
+        res.tag('repo_tests_workload')
+        res.sample({'case': case, 'pytest': tail})
+        if sum(res.d['counts'].values()) > 1000:
+            res.nontrivial('repo-tests')
+        return res
+    if case['kind'] == 'refine':
+        try:
+            feats = run_refine(case, res)
+            res.sample({'case': case, 'features': feats})
+        except drive.Rejected as e:
+            res.status('rejected', str(e))
+        return res
+    if case['kind'] == 'repo':
+        P, feats = None, {'repo_input': case['input']}
+        key = {'repo_input': case['input']}
+    else:
+        P, feats = build_problem(case)
+        key = {k: feats.get(k) for k in ('nr', 'n_duct', 'gap', 'tdep')}
+    rng = np.random.default_rng(case['seed'] + [99])
+    state = {'steps': 0}
+    on_step, on_rc = step_monitors(res, key, state)
 
     try:
         with drive.scratch() as d, Hooks() as hk:
